@@ -37,7 +37,14 @@ INDEX_PATTERNS = {
 
 
 def _grid(name, pattern):
-    v, e = {"octa": SG.octa, "screen2": lambda: SG.screen(2), "fan3": SG.fan3}[name]()
+    def _octa_upper_with_spare_vertices():
+        # "for every grid": the four upper faces of the octahedron on the full vertex array, re-ordered so that the unreferenced vertex is not the last one
+        v, e = SG.octa()
+        order = [5, 0, 1, 2, 3, 4]                     # old vertex 5 (unused by the upper faces) becomes vertex 0
+        new_index = {old: new for new, old in enumerate(order)}
+        return v[:, order], np.vectorize(new_index.get)(e[:, :4])
+
+    v, e = {"octa": SG.octa, "screen2": lambda: SG.screen(2), "fan3": SG.fan3, "octa_upper_spare": _octa_upper_with_spare_vertices}[name]()
     return SG.make_grid(v, e, INDEX_PATTERNS[pattern](e.shape[1]))
 
 
@@ -279,7 +286,7 @@ def ob_files(fmt):
     d = tempfile.mkdtemp(prefix="c19_")
     n = 0
     try:
-        for gridname in ("octa", "screen2"):
+        for gridname in ("octa", "screen2", "octa_upper_spare"):
             for pattern in ("noncontiguous", "single-nonzero", "contiguous", "zero-and-nonzero"):
                 g = _grid(gridname, pattern)
                 for binary in (True, False):
@@ -320,7 +327,7 @@ def main():
         run.under_contract(f)
     run.assumed_contract("meshio.write_points_cells / meshio.read", "read(write(points, cells, point_data, cell_data, file_format='gmsh22')) returns the same points, cells and data; "
                          "cell data values are lists with one array per cell block")
-    for gridname in ("octa", "fan3"):
+    for gridname in ("octa", "fan3", "octa_upper_spare"):
         for pattern in INDEX_PATTERNS:
             for binary in (True, False):
                 run.add("io.export[grid %s, %s indices, binary=%s]" % (gridname, pattern, binary), "post", ob_export_grid, gridname, pattern, binary)
